@@ -23,10 +23,10 @@ func init() {
 
 func ruleX(c *Ctx) {
 	P, R := c.P, c.R
-	R.Rule("C16.X1", "encode-mode grammar == decode-mode grammar for every Xdr method; every statement of the generated code is understood", 100)
-	R.Rule("C16.X2", "Go grammar == RFC grammar for every RFC type; RFC constants have the same values", 150)
-	R.Rule("C16.X3", "dispatch: registrations match the RFC program blocks; wrappers decode/return the RFC types and call the same procedure; mains register and serve", 60)
-	R.Rule("C16.X4", "malformed arguments are rejected before the handler runs (args.Error() checked)", 20)
+	R.Rule("C16.X1", "encode-mode grammar == decode-mode grammar for every Xdr method; every statement of the generated code is understood", 140)
+	R.Rule("C16.X2", "Go grammar == RFC grammar for every RFC type; RFC constants have the same values", 290)
+	R.Rule("C16.X3", "dispatch: registrations match the RFC program blocks; wrappers decode/return the RFC types and call the same procedure; mains register and serve", 86)
+	R.Rule("C16.X4", "malformed arguments are rejected before the handler runs (args.Error() checked)", 23)
 	R.Rule("C16.X5", "non-exhaustive unions reject unknown discriminants when decoding", 1)
 	pk := P.Pkg("nfstypes")
 	xp := P.All["github.com/zeldovich/go-rpcgen/xdr"]
